@@ -72,19 +72,25 @@ where
                             if !firsts.is_epsilon_set(s_ridx) {
                                 epsilon = false;
                             }
-                            if sidx < prod.len() - 1 {
-                                match prod[sidx + 1] {
+                            // Everything that can begin what comes after this symbol can follow
+                            // it: keep looking past symbols which can derive the empty string.
+                            for nxt in &prod[sidx + 1..] {
+                                match *nxt {
                                     Symbol::Token(nxt_tidx) => {
                                         if follows[usize::from(s_ridx)]
                                             .set(usize::from(nxt_tidx), true)
                                         {
                                             changed = true;
                                         }
+                                        break;
                                     }
                                     Symbol::Rule(nxt_ridx) => {
                                         if follows[usize::from(s_ridx)].or(firsts.firsts(nxt_ridx))
                                         {
                                             changed = true;
+                                        }
+                                        if !firsts.is_epsilon_set(nxt_ridx) {
+                                            break;
                                         }
                                     }
                                 }
